@@ -39,6 +39,7 @@ type ctlState struct {
 	dstNacks, dlqRejects, procErrors, stuckCalls int
 	restartInProgress                            bool // an automatic restart has begun and the pipeline is not yet reported running again
 	forceStopIssued                              bool // a force stop request has been issued at some time in this run
+	forceStopFoundRunOver                        bool // ... and at that moment the run had already closed all its plugin sessions
 	// the start in progress (a Start call or an automatic restart) and what its run has done so far
 	startActive       bool
 	openedSinceStart  int
@@ -160,6 +161,9 @@ func (o *Oracles) onControlEvent(w *World, e *Event) {
 		c.runAtCall[e.Ent] = len(c.runStartStep)
 		if op == "forcestop" {
 			c.forceStopIssued = true
+			// the run this request is aimed at had already ended (every plugin session closed,
+			// e.g. by a graceful stop that has just finished draining): it changes nothing any more
+			c.forceStopFoundRunOver = len(o.openSessions(w)) == 0
 		}
 		if op == "start" {
 			c.startActive, c.openedSinceStart, c.terminalAfterOpen = true, 0, false
@@ -390,7 +394,7 @@ func (o *Oracles) checkRestartError(w *World, err error) {
 // checkForceStopped: evaluated after Stop(force) returned and WaitPipeline returned.
 func (o *Oracles) checkForceStopped(w *World) {
 	c := o.ctl
-	if !c.forceStopped || o.statusWriteFailedEver {
+	if !c.forceStopped || o.statusWriteFailedEver || c.forceStopFoundRunOver {
 		return
 	}
 	st, errText, ok := w.db.durableStatus(PipelineID)
